@@ -501,6 +501,23 @@ class C10(Check):
         yield self.mk(0, V6, 6, True, (True,), repeat=4, debug=True)
         yield self.mk(2, "::", 6, True, (True,), repeat=2)
         yield self.mk(3, "::", 6, True, (True,), repeat=2)
+        # every logging level of the server modules (WARNING is the default of all other cases): names with backslashes,
+        # control characters, quotes, non-ASCII bytes and percent signs must reach all three handler methods unchanged
+        odd = [b"\\win\\path", b"/a\\b/c", b"/tab\there", b"/nl\nhere", b"/cr\rhere", b"/q'uote\"s", b"/\x01\x1f\x7f", b"/\xc3\xa4\xff",
+               b"/100%", b"/%5C%0A", b"/u\\u0041", b"/x\\n"]
+        for lvl in ("info", True):
+            for tl in odd:
+                yield self.mk(0, "::", 6, True, (False, True), stem=b"lv/", tail=tl, debug=lvl)
+                yield self.mk(0, "::", 4, False, (True,), stem=b"lv/", tail=tl, debug=lvl, repeat=2)
+            for tl in odd:
+                if any(ch in tl for ch in b" \t\n\r\x0b\x0c\x1c\x1d\x1e\x1f\x85\xa0"):
+                    continue            # white space for http.server's request-line split: not a single target
+                yield self.mk(1, "::", 6, True, (False, True), tail=tl.replace(b"\xff", b"%FF"), debug=lvl)
+            for v in vectors:
+                yield self.mk(0, "::", 6, True, v, stem=b"inf/", tail=b"/x", debug="info")
+                yield self.mk(1, "::", 6, True, v, tail=b"/inf?x=1", debug="info")
+            yield self.mk(2, "::", 6, True, (True,), debug=lvl)
+            yield self.mk(3, "::", 6, True, (True,), debug=lvl, headers=[("X-Rep", "1")])
         # stop() and start() on ONE server object (bind_port=0: new port): the handler must see the new address
         for bind, fam in (("::", 6), ("::", 4), (V6, 6)):
             for pk in (True, False):
@@ -577,7 +594,7 @@ class C10(Check):
         old = [lg.level for lg in loggers]
         if c.get("debug"):                       # the logging level is configuration: the property holds at every level
             for lg in loggers:
-                lg.setLevel(logging.DEBUG)
+                lg.setLevel(logging.INFO if c["debug"] == "info" else logging.DEBUG)
         try:
             for _rep in range(c.get("repeat") or 1):
                 # the same name again on the same long-lived server: every request gets its own full dispatch
@@ -737,7 +754,7 @@ class C10(Check):
         return {"proto": ["tftp", "http", "tftp+file-handler", "http+file-handler"][c["proto"]], "bind": c["bind"],
                 "client_family": "IPv%d" % c["fam"], "pktinfo": c["pktinfo"], "name": c["name"].decode("latin-1"),
                 "mail_mode": c["mail"], "method": c["method"], "headers": c["headers"],
-                "server_loggers_at_DEBUG": bool(c.get("debug")), "restart": c.get("restart"),
+                "server_log_level": {None: "WARNING (default)", False: "WARNING (default)", True: "DEBUG", "info": "INFO"}.get(c.get("debug")), "restart": c.get("restart"),
                 "same_request_sent_n_times(last one observed)": c.get("repeat"),
                 "recvmsg_ancillary_data_for_this_datagram": c.get("anc_mode"), "falsy_context_objects": bool(c.get("falsy_ctx")),
                 "handlers(tag,accepts,result)": c["handlers"]}
